@@ -1090,14 +1090,19 @@ func (b *broker) subEventHistory(msg *wamp.Invocation) wamp.Message {
 		}
 	}
 
-	limit, ok = msg.ArgumentsKw["limit"].(int)
-	if ok && limit < 1 {
-		return &wamp.Error{
-			Type:    msg.MessageType(),
-			Request: msg.Request,
-			Details: wamp.Dict{},
-			Error:   wamp.ErrInvalidArgument,
+	// Numeric arguments arrive as int64, uint64 or float64 depending on the
+	// client's serializer, so they are converted rather than type asserted.
+	if limitOp, ok := msg.ArgumentsKw["limit"]; ok {
+		limit64, ok := wamp.AsInt64(limitOp)
+		if !ok || limit64 < 1 {
+			return &wamp.Error{
+				Type:    msg.MessageType(),
+				Request: msg.Request,
+				Details: wamp.Dict{},
+				Error:   wamp.ErrInvalidArgument,
+			}
 		}
+		limit = int(limit64)
 	}
 
 	reverseOp, ok := msg.ArgumentsKw["reverse"]
@@ -1172,8 +1177,8 @@ func (b *broker) subEventHistory(msg *wamp.Invocation) wamp.Message {
 
 	fromPubOp, ok := msg.ArgumentsKw["from_publication"]
 	if ok {
-		fromPub, ok = fromPubOp.(wamp.ID)
-		if !ok || fromPub < 1 {
+		fromPub, ok = wamp.AsID(fromPubOp)
+		if !ok {
 			return &wamp.Error{
 				Type:    msg.MessageType(),
 				Request: msg.Request,
@@ -1186,8 +1191,8 @@ func (b *broker) subEventHistory(msg *wamp.Invocation) wamp.Message {
 
 	afterPubOp, ok := msg.ArgumentsKw["after_publication"]
 	if ok {
-		afterPub, ok = afterPubOp.(wamp.ID)
-		if !ok || afterPub < 1 {
+		afterPub, ok = wamp.AsID(afterPubOp)
+		if !ok {
 			return &wamp.Error{
 				Type:    msg.MessageType(),
 				Request: msg.Request,
@@ -1199,8 +1204,8 @@ func (b *broker) subEventHistory(msg *wamp.Invocation) wamp.Message {
 
 	beforePubOp, ok := msg.ArgumentsKw["before_publication"]
 	if ok {
-		beforePub, ok = beforePubOp.(wamp.ID)
-		if !ok || beforePub < 1 {
+		beforePub, ok = wamp.AsID(beforePubOp)
+		if !ok {
 			return &wamp.Error{
 				Type:    msg.MessageType(),
 				Request: msg.Request,
@@ -1212,8 +1217,8 @@ func (b *broker) subEventHistory(msg *wamp.Invocation) wamp.Message {
 
 	untilPubOp, ok := msg.ArgumentsKw["until_publication"]
 	if ok {
-		untilPub, ok = untilPubOp.(wamp.ID)
-		if !ok || untilPub < 1 {
+		untilPub, ok = wamp.AsID(untilPubOp)
+		if !ok {
 			return &wamp.Error{
 				Type:    msg.MessageType(),
 				Request: msg.Request,
